@@ -21,7 +21,8 @@ RULE = ('carts = (region memory from a mode mixture, version 0..255, Lua code fr
         'code and >= 2 regions with >= 16 distinct byte values; distinct by generating seed.'
         ' An existing destination is a PNG as picotool/PICO-8 write it or as an image editor saves it (Adam7 interlaced, any filter type, several IDAT chunks, ancillary chunks pHYs/gAMA/tEXt/bKGD/tIME/sBIT/sRGB/iTXt/private), encoded by REFPNG.'
         ' The compressed boundary also holds a cart whose header + stream fill the code area exactly with a two-byte token at the very end.'
-        " A quarter of the small carts carry a Lua object whose version differs from the cart's (a cart assembled from parts); half of the writes pass label_fname=None explicitly; incompressible code mentioning _update60 is a code class.")
+        " A quarter of the small carts carry a Lua object whose version differs from the cart's (a cart assembled from parts); half of the writes pass label_fname=None explicitly; incompressible code mentioning _update60 is a code class."
+        ' sBIT chunks of the destination also come with fewer than 8 significant bits.')
 ASSUMPTIONS = ['"fits" := len(code) <= 65535 and (len(code) <= 0x3d00 or 8 + len(compress_code(code)) <= 0x3d00), '
                'and for a version-0 cart (which every reader, PICO-8 included, takes as uncompressed) '
                'len(code) <= 0x3d00; picotool\'s own compressor is trusted for the stream *size* only',
